@@ -6,7 +6,7 @@ echo "=== clean"; /verif/tools/try_tree.sh /repo "$@" | grep -v KNOWN-FINDING | 
 for d in /verif/neutral/N*; do
   n=$(basename $d)
   if [ ! -d /tmp/nw/$n ]; then
-    git -C /repo worktree add -q --detach /tmp/nw/$n HEAD && ( cd /tmp/nw/$n && git apply $d/refactor.diff ) || echo "cannot build $n"
+    /verif/tools/mkscratch.sh
   fi
   echo "=== $n"; /verif/tools/try_tree.sh /tmp/nw/$n "$@" | grep -v KNOWN-FINDING | cut -c1-260
 done
